@@ -19,6 +19,32 @@ PLANS["C02"] = {
     "thorough": [J("restart", "c=3,f=2,p=1", 900)],
 }
 
+PLANS["C03"] = {
+    "quick": [J("qos2out", "f=2,c=1", 90)],
+    "thorough": [J("qos2out", "f=3,c=2,p=1", 900)],
+}
+PLANS["C05"] = {
+    "quick": [J("puborder", "p=2,f=1,s=1", 90)],
+    "thorough": [J("puborder", "p=3,f=2,s=2", 900)],
+}
+
+PLANS["C08"] = {
+    "quick": [J("writers", "p=1,f=1", 90)],
+    "thorough": [J("writers", "p=2,f=2,s=1", 900)],
+}
+PLANS["C10"] = {
+    "quick": [J("wedge", "p=1,f=2,s=1", 90)],
+    "thorough": [J("wedge", "p=2,f=3,s=2", 900)],
+}
+PLANS["C11"] = {
+    "quick": [J("reqresp", "p=2,f=1,s=1,sel=1", 90)],
+    "thorough": [J("reqresp", "p=3,f=2,s=2,sel=1", 900)],
+}
+PLANS["C12"] = {
+    "quick": [J("shutdown1", "p=1,f=1,s=1", 40), J("shutdown2", "p=1,f=1,s=1,sel=1", 50)],
+    "thorough": [J("shutdown1", "p=2,f=1,s=2", 300), J("shutdown2", "p=2,f=1,s=2,sel=1", 300), J("shutdown3", "p=2,f=1,s=2,sel=1", 300)],
+}
+
 LEVELS = {}
 
 ASSUMPTIONS = {
